@@ -132,7 +132,7 @@ theorem ginv_all {W : Colls} : ∀ (cs : List (Req × Forest)) (seen : List (Req
       rw [ha] at h
       simp only at h
       obtain ⟨hp1, hp2⟩ := hfl p List.mem_cons_self
-      have hG1 := ginv_step hG hp1 hp2 (fun _ q hq => hfr p List.mem_cons_self q hq) (by cases u; exact ha)
+      have hG1 := (ginv_step hG hp1 hp2 (fun _ q hq => hfr p List.mem_cons_self q hq) (by cases u; exact ha)).1
       have := ginv_all cs ((p.1, p.2) :: seen) s1 s' hG1 (fun q hq => hfl q (List.mem_cons_of_mem _ hq))
         (by
           intro q hq q' hq'
